@@ -15,10 +15,15 @@ A program (JSON-able dict):
               Python >= 3.11) | "base" (a BaseException subclass of our own) - the injected class of a fault of BaseException kind
     bexc      "exception" (default) | "cancel": what the body command `raise` raises - BodyError(Exception) or
               BodyCancel(asyncio.CancelledError), i.e. the task is cancelled while it is inside the block
-    data      [[b, k, v, ttl|None], ...]      initial store content
+    data      [[b, k, v, ttl|None], ...]      initial store content (ttl in ticks: the key lapses `ttl` ticks after the start)
     flocks    [[b, lk], ...]                  lock keys held for ever by a foreign owner before the block
-    body      ["set.b.k.v.ttl", "incr.b.k", "get.b.k", "del.b.k", "adv.dt", "raise",
-               "setmany.b.ttl.k:v+k:v+...", "delmany.b.k+k+..."]      (multi-key commands: distinct keys of ONE backend)
+    body      ["set.b.k.v.ttl", "incr.b.k", "incr.b.k.ttl", "get.b.k", "del.b.k", "adv.dt", "raise",
+               "setmany.b.ttl.k:v+k:v+...", "delmany.b.k+k+...",      (multi-key commands: distinct keys of ONE backend)
+               "expire.b.k.ttl"        cache.expire(key, ttl)
+               "setx.b.k.v.ttl"        cache.set(key, v, expire=ttl, exist=True)
+               "setnx.b.k.v.ttl"]      cache.set(key, v, expire=ttl, exist=False)
+              `incr` with a ttl, `expire`, `setx`/`setnx` are read-modify-writes: each can issue a backend READ of its own
+              (get / exists) after the key's lock was taken, and that read can fail.
     holders   [{"b": b, "k": k, "end": "rollback"|"commit"}, ...]   contending holders: each is ANOTHER TASK running a real
               transaction block (same mode, long timeout) that has written key k of backend b - so it holds that key's lock
               (the backend's global lock when serializable) - and is parked on an asyncio.Event.  "rollback": it wrote
@@ -44,6 +49,7 @@ from . import vtime
 from .vtime import BASE, CLOCK, TICK
 
 from cashews import Cache, LockedError  # noqa: E402
+from cashews.backends.interface import NOT_EXIST, UNLIMITED  # noqa: E402
 from cashews.backends.memory import Memory  # noqa: E402
 from cashews.exceptions import CacheBackendInteractionError  # noqa: E402
 from cashews.wrapper.backend_settings import register_backend  # noqa: E402
@@ -250,6 +256,12 @@ def show_event(ev) -> str:
         elif name == "set":
             a = dict(zip(("key", "value", "expire", "exist"), args), **kwargs)
             s = f"set.{_kidx(b, a['key'])}.{a['value']}" + ("" if a.get("expire") is None and a.get("exist") is None else ".?")
+        elif name == "exists":
+            s = f"exists.{_kidx(b, args[0] if args else kwargs['key'])}"
+        elif name == "expire":        # never sent by a transaction before commit (nor at commit): shown so that a report can name it
+            a = dict(zip(("key", "timeout"), args), **kwargs)
+            k, lk = _kidx(b, a["key"]), _lkidx(b, a["key"])
+            s = f"?expire.{k if k is not None else f'lock{lk}' if lk is not None else repr(a['key'])}.{_ticks(a['timeout'])}"
         elif name == "set_lock":
             a = dict(zip(("key", "value", "expire"), args), **kwargs)
             s = f"setlock.{_lkidx(b, a['key'])}.{_ticks(a['expire'])}"
@@ -292,6 +304,43 @@ def holder_lock(prog, h):
     return (h["b"], 0 if prog["mode"] == "serializable" else h["k"] + 1)
 
 
+# backend commands that can change the data of a store: none of them may reach a backend when the body failed
+WRITE_COMMANDS = {"set", "set_many", "incr", "delete", "delete_many", "delete_match", "expire", "clear", "set_raw", "incr_bits",
+                  "slice_incr", "set_add", "set_remove", "set_pop"}
+
+
+async def deadline_of(be, key):
+    """When does `key` lapse?  API-level: `get_expire` (whole seconds, rounded) narrows it down to nine ticks, then the
+    virtual clock is moved to find the first tick at which the backend reports the key gone.  Returns None (no such
+    key now), "-" (no deadline), the deadline in ticks since BASE as a string, or "?..." when it is not a whole tick.
+    Pure reads (`get_expire` removes nothing); the clock is put back."""
+    t0 = CLOCK.t
+    r = await be.get_expire(key)
+    if r == NOT_EXIST:
+        return None
+    if r == UNLIMITED:
+        return "-"
+    lo, hi = max(r * 8 - 4, 1), r * 8 + 5          # remaining ticks n (first tick at which it is gone): lo <= n <= hi
+    try:
+        async def gone(n):
+            CLOCK.t = t0 + n * TICK
+            return await be.get_expire(key) == NOT_EXIST
+        if not await gone(hi) or (lo > 1 and await gone(lo - 1)):
+            return f"?get_expire={r}"
+        while lo < hi:
+            mid = (lo + hi) // 2
+            if await gone(mid):
+                hi = mid
+            else:
+                lo = mid + 1
+        CLOCK.t = t0 + lo * TICK - TICK / 1024      # still there a moment before: the deadline is that very tick
+        exact = await be.get_expire(key) != NOT_EXIST
+    finally:
+        CLOCK.t = t0
+    at = (t0 - BASE) / TICK + lo
+    return str(int(at)) if exact and at == int(at) else f"?{(t0 - BASE) / TICK + lo!r}"
+
+
 async def _run(prog, faults, rels):
     mode = prog["mode"]
     nb = prog["nb"]
@@ -318,6 +367,15 @@ async def _run(prog, faults, rels):
 
     async def snapshot():
         return {f"{b}.{k}": await backs[b].get(kname(b, k)) for b, k in universe}
+
+    async def snapshot_entries():
+        """the whole live entries: value AND deadline (`v@dl`, deadline in ticks of the virtual clock, `-` = none)"""
+        out = {}
+        for b, k in universe:
+            dl = await deadline_of(backs[b], kname(b, k))
+            v = await backs[b].get(kname(b, k))
+            out[f"{b}.{k}"] = None if v is None or dl is None else f"{v}@{dl}"
+        return out
 
     before = await snapshot()
 
@@ -384,8 +442,18 @@ async def _run(prog, faults, rels):
                     r = await cache.set(kname(b, k), v, expire=None if w[4] == "-" else int(w[4]) * TICK)
                     outs.append("T" if r is True else "F" if r is False else f"?{r!r}")
                 elif w[0] == "incr":
-                    r = await cache.incr(kname(int(w[1]), int(w[2])))
+                    if len(w) > 3 and w[3] != "-":
+                        r = await cache.incr(kname(int(w[1]), int(w[2])), expire=int(w[3]) * TICK)
+                    else:
+                        r = await cache.incr(kname(int(w[1]), int(w[2])))
                     outs.append(f"n{r}")
+                elif w[0] == "expire":
+                    r = await cache.expire(kname(int(w[1]), int(w[2])), int(w[3]) * TICK)
+                    outs.append("U" if r is None else f"?{r!r}")
+                elif w[0] in ("setx", "setnx"):
+                    b, k, v = int(w[1]), int(w[2]), int(w[3])
+                    r = await cache.set(kname(b, k), v, expire=None if w[4] == "-" else int(w[4]) * TICK, exist=w[0] == "setx")
+                    outs.append("T" if r is True else "F" if r is False else f"?{r!r}")
                 elif w[0] == "get":
                     r = await cache.get(kname(int(w[1]), int(w[2])))
                     outs.append("-" if r is None else f"v{r}")
@@ -455,10 +523,14 @@ async def _run(prog, faults, rels):
     late = list(REC.late)
     times = dict(REC.times)       # (a command still suspended when the block was left - never on a correct tree - took effect later)
     after = await snapshot()
+    after_entries = await snapshot_entries()
     # what an untouched store shows at this instant: the initial content minus what has expired meanwhile
     untouched = {f"{b}.{k}": None for b, k in universe}
+    untouched_entries = dict(untouched)
     for b, k, v, ttl in prog["data"]:
-        untouched[f"{b}.{k}"] = v if ttl is None or CLOCK.t < BASE + ttl * TICK else None
+        live = ttl is None or CLOCK.t < BASE + ttl * TICK
+        untouched[f"{b}.{k}"] = v if live else None
+        untouched_entries[f"{b}.{k}"] = f"{v}@{'-' if ttl is None else ttl}" if live else None
     # remaining lock keys (raw presence, whatever their age): `get_raw` ignores deadlines
     remaining = []
     for b, lk in lock_universe(prog):
@@ -511,7 +583,12 @@ async def _run(prog, faults, rels):
         "data": sorted(f"{k}={v}" for k, v in final.items() if v is not None),
         "probe": "ok" if probe_ok else "lost",
         "now": end_ticks,
+        "store": sorted(f"{k}={v}" for k, v in after_entries.items() if v is not None),
         # for the property oracle
+        "untouched_entries": untouched_entries,
+        "after_entries": after_entries,
+        # write commands that reached a backend and RAN (one that was made to fail had no effect here)
+        "writes_sent": [show_event(e) for e in trace if e[2] in WRITE_COMMANDS and not e[5]],
         "before": before,
         "untouched": untouched,
         "after": after,
@@ -565,6 +642,7 @@ def parse_answer(ans: str) -> dict | None:
     return {
         "exc": d["exc"], "ctx": d["ctx"], "trace": lst(d["trace"], ";"), "outs": lst(d["outs"], ","),
         "locks": lst(d["locks"], ","), "data": lst(d["data"], ","), "probe": d["probe"], "now": int(d["now"]),
+        "store": lst(d["store"], ","),
     }
 
 
@@ -586,4 +664,12 @@ def oracle(prog, obs) -> list[str]:
             bad.append("left-lock-does-not-lapse-at-the-timeout")
     if obs["body_raised"] and obs["after"] != obs["untouched"]:
         bad.append("failed-body-changed-the-store")
+    elif obs["body_raised"] and obs["after_entries"] != obs["untouched_entries"]:
+        # same keys, same values - but an entry does not lapse when it did before the block (theorem
+        # failed_body_keeps_values_and_deadlines: the WHOLE entry is what it was)
+        bad.append("failed-body-changed-a-ttl-in-the-store")
+    if obs["body_raised"] and obs["writes_sent"]:
+        # theorem failed_body_sends_no_write: a block whose body failed sends reads, set_lock and unlock only (here: a write
+        # command that was not made to fail, i.e. one that took effect on the store before the body failed)
+        bad.append("failed-body-sent-a-write-command-to-a-backend")
     return bad
